@@ -2,6 +2,7 @@ package rules
 
 import (
 	"fmt"
+	"os"
 	"go/ast"
 	"go/token"
 	"go/types"
@@ -54,6 +55,12 @@ var c07Requires = map[string]int64{
 	load.Mod + "/windows/keycredential/utils.ConvertFromBinaryTime":                 8,
 }
 
+// entry points that decode bytes held in the receiver (put there by an earlier decode)
+var c07ExtraEntries = map[string]bool{
+	"(*windows/keycredential.KeyCredential).ComputeKeyHash": true,
+	"(*windows/keycredential.KeyCredential).CheckIntegrity": true,
+}
+
 func takesInput(sig *types.Signature) bool {
 	for i := 0; i < sig.Params().Len(); i++ {
 		t := sig.Params().At(i).Type()
@@ -99,7 +106,12 @@ func C07Entries(p *load.Program, w *prove.World) []*ssa.Function {
 		if !inPkg[relPkg(p, fn)] {
 			continue
 		}
-		if !c07NameRe.MatchString(fn.Name()) {
+		if c07ExtraEntries[p.FuncName(fn)] {
+			// decoders of state that came from input earlier (no byte parameter of their own)
+			out = append(out, fn)
+			continue
+		}
+		if !c07NameRe.MatchString(fn.Name()) && os.Getenv("MANTI_C07_WIDE") == "" {
 			continue
 		}
 		sig := fn.Signature
